@@ -466,3 +466,10 @@ Section ResidAnyCarrier.
       + eexists. split; [reflexivity|]. split; [exact HL|exact HO].
   Qed.
 End ResidAnyCarrier.
+
+(* a window at least as long as the prefix (in particular w > len) is the whole prefix 0..=i *)
+Lemma win_covers_prefix {X} w i (xs : list X) : S i <= w -> win w i xs = firstn (S i) xs.
+Proof.
+  intros H. rewrite win_seg. unfold wstart, seg. replace (S i - w) with 0 by lia.
+  rewrite Nat.sub_0_r. reflexivity.
+Qed.
